@@ -166,6 +166,42 @@ impl Probe for CausalProbe {
                 let expected = fresh_view(&u, "C02 fresh(U)");
                 cx.count("delivery_problems");
                 cx.sample(json!({"scenario": sc.name, "history": hist_str(hist), "source": s, "target": if t < n { json!(t) } else { json!("empty") }, "missing_items": missing}));
+                // an item that first arrives incomplete (partial copy by a sync tool: name and content
+                // disagree) and is completed later must end in the same state
+                for (bi, bad_key) in missing.iter().enumerate() {
+                    cx.count("incomplete_then_completed");
+                    let mut w = if t < n { sc.build(hist) } else { World::new(1, sc.menu.clone()) };
+                    let tr = if t < n { t } else { 0 };
+                    let full = stores[s][bad_key].clone();
+                    w.reps[tr].store.put_raw(bad_key, full[..full.len() / 2].to_vec());
+                    let _ = w.apply(&Op::Refresh(tr));
+                    if w.any_dead() {
+                        cx.violation("C02", "C02:refresh-panicked-on-incomplete-item", sc, hist, json!({"target": t, "incomplete": bad_key}));
+                        return;
+                    }
+                    let mut delivered = vec![format!("{} (first half only, then refresh)", bad_key)];
+                    let mut okk = true;
+                    // then everything (including the completed item) in rotated order
+                    for j in 0..missing.len() {
+                        let k = &missing[(bi + j) % missing.len()];
+                        w.reps[tr].store.put_raw(k, stores[s][k].clone());
+                        delivered.push(k.clone());
+                        let o = w.apply(&Op::Refresh(tr));
+                        if !o.is_ok() {
+                            cx.violation("C02", "C02:refresh-failed", sc, hist, json!({"target": t, "delivered": delivered, "outcome": o.text()}));
+                            okk = false;
+                            break;
+                        }
+                    }
+                    if !okk {
+                        return;
+                    }
+                    let nv = cx.violations.len();
+                    check_target(sc, hist, &w, tr, &delivered, cx, Some(&expected));
+                    if cx.violations.len() > nv {
+                        return;
+                    }
+                }
                 for p in permutations(missing.len()) {
                     cx.count("permutations");
                     // target world: the live replica t of the state, or a fresh empty replica
